@@ -213,7 +213,10 @@ inductive CVD
       (list : Option (List CVD)) (map : Option (List (CVD × CVD))) (ident : Str) (extra : Extra)
   deriving Repr, Inhabited
 
-/-- enum ConstValueType -/
+/-- enum ConstValueType (Props/C15 checks the numbering against descriptor.thrift and descriptor.go) -/
+def cvtTable : List (Str × Nat) :=
+  [([68, 79, 85, 66, 76, 69], 0), ([73, 78, 84], 1), ([83, 84, 82, 73, 78, 71], 2), ([66, 79, 79, 76], 3),
+   ([76, 73, 83, 84], 4), ([77, 65, 80], 5), ([73, 68, 69, 78, 84, 73, 70, 73, 69, 82], 6)]
 def cvtDOUBLE : Nat := 0
 def cvtINT : Nat := 1
 def cvtSTRING : Nat := 2
@@ -315,6 +318,16 @@ structure FileDesc where
   consts : List ConstDesc
   extra : Extra
   deriving Repr, Inhabited
+
+/-! ### the parser's `Annotations.Append` (parser/AST-extend.go): what `(k = "v", …)` becomes in the AST -/
+
+/-- `a.Append(key, value)`: a repeated key extends the values of its first entry -/
+def annoAppend : List Anno → Str → Str → List Anno
+  | [], k, v => [{ key := k, values := [v] }]
+  | a :: r, k, v => if a.key = k then { a with values := a.values ++ [v] } :: r else a :: annoAppend r k v
+
+/-- the AST annotations of a source-level annotation list -/
+def annosOfPairs (ps : List (Str × Str)) : List Anno := ps.foldl (fun as p => annoAppend as p.1 p.2) []
 
 /-! ### describe (descriptor_creater.go) -/
 
@@ -518,6 +531,56 @@ def marshal (P : Prog) (fd : FileDesc) : Res Bytes := Std.write P sFileDescripto
 /-- `Unmarshal` after gunzip, as the Go object it builds (`NewFileDescriptor()` then meta.Unmarshal) -/
 def unmarshalVal (P : Prog) (bs : Bytes) : Option GoVal := Std.read P sFileDescriptor bs
 
+/-! ### run-time check of `Gen.Std.WT` (what a Go program can hold): the hypothesis of the round trip -/
+
+def isNilB : GoVal → Bool
+  | .nil => true
+  | _ => false
+
+def keysOkB (k : Ty) : List GoVal → Bool
+  | [] => true
+  | a :: r => !isNilB a && r.all (fun p => !Std.keyEq k a p) && keysOkB k r
+
+def inRange (lo hi : Int) (x : Int) : Bool := decide (lo ≤ x) && decide (x < hi)
+
+mutual
+def wtB (S : List StructDef) : Ty → GoVal → Bool
+  | .bool, .bool _ => true
+  | .i8, .int x => inRange (-128) 128 x
+  | .i16, .int x => inRange (-32768) 32768 x
+  | .i32, .int x => inRange (-2147483648) 2147483648 x
+  | .enum, .int x => inRange (-2147483648) 2147483648 x
+  | .i64, .int x => inRange (-9223372036854775808) 9223372036854775808 x
+  | .dbl, .dbl b => decide (b < 256 ^ 8)
+  | .str, .bytes bs => decide (bs.length < Wire.maxSize)
+  | .bin, .bytes bs => decide (bs.length < Wire.maxSize)
+  | .bin, .nil => true
+  | .list _, .nil => true
+  | .set _, .nil => true
+  | .map _ _, .nil => true
+  | .list e, .list xs => decide (xs.length < Wire.maxSize) && wtListB S e xs
+  | .set e, .list xs => decide (xs.length < Wire.maxSize) && wtListB S e xs
+  | .map k v, .map kvs => decide (kvs.length < Wire.maxSize) && wtPairsB S k v kvs && keysOkB k (kvs.map Prod.fst) &&
+      (k.isBase || k.isStruct)
+  | .struct i, .strct fs =>
+      match S[i]? with
+      | some sd => wtFieldsB S sd.fields fs
+      | none => false
+  | _, _ => false
+def wtListB (S : List StructDef) (e : Ty) : List GoVal → Bool
+  | [] => true
+  | x :: r => wtB S e x && wtListB S e r
+def wtPairsB (S : List StructDef) (k v : Ty) : List (GoVal × GoVal) → Bool
+  | [] => true
+  | (a, b) :: r => wtB S k a && wtB S v b && wtPairsB S k v r
+def wtFieldsB (S : List StructDef) : List FieldDef → List GoVal → Bool
+  | [], [] => true
+  | f :: fs, v :: vs =>
+      (if f.req = .optional then (isNilB v && !Std.isSet f v) || wtB S f.ty v else wtB S f.ty v) &&
+      inRange (-32768) 32768 f.id && wtFieldsB S fs vs
+  | _, _ => false
+end
+
 /-! ### registry (descriptor_register.go) -/
 
 def uuidKey : Str := [103, 108, 111, 98, 97, 108, 95, 100, 101, 115, 99, 114, 105, 112, 116, 111, 114, 95, 117, 117, 105, 100]
@@ -595,6 +658,14 @@ def regASTs (uuid : Str) : List Ast → GFD → GFD
   | [], g => g
   | a :: r, g => regASTs uuid r (regAST uuid a g)
 end
+
+/-- BuildFileDescriptor at the init of a generated package: the descriptor decoded from the embedded bytes is
+registered under its filepath in the default registry — no uuid; the first registration of a path stays
+(`checkDuplicateAndRegister`: an equal second one is ignored, a different one panics) -/
+def registerBuilt (g : GFD) (fd : FileDesc) : GFD :=
+  match mapGet g fd.filepath with
+  | some _ => g
+  | none => mapSet g fd.filepath fd
 
 /-- the process-wide registries: `defaultGlobalDescriptor` and `globalDescriptorMap` minus the default -/
 structure World where
